@@ -81,6 +81,8 @@ def diskObs (d : Disk) : Obs := obsOf { disk := d, config := none, libs := [] } 
 def diskFields (a b : Obs) : List String :=
   (diffFields a b).filter fun f => f == "sj" || f == "sje" || f == "pj" || f == "pd" || f == "junk"
 
+initialize A_OUT : IO.Ref (Option UpdateOut) ← IO.mkRef none
+
 /-- Replay one concurrent episode in the model, grant by grant, against the implementation's grants.
     Returns the disk to continue from, whether a difference was seen, and the C11 verdict on the
     implementation's grants. -/
@@ -117,6 +119,10 @@ def processConc (env : Env) (hist : String) (k : Nat) (w : World) (chan : Option
     let pre : View := Judge.viewOfObs (diskObs w.disk)
     let g0 := G11.start env cfg.key sc bops pre
     let verdict := judge11 env cfg.key sc g0 0 pre gtrace.toList
+    -- what the update of the episode returned (for the C17 clause on the episode's network log)
+    let aOut : Option UpdateOut := (gtrace.toList.filterMap fun (who, rets, _) =>
+      if who == Who.A then rets.findSome? (fun r => match r with | .upd o => some o | _ => none) else none).getLast?
+    A_OUT.set aOut
     return (cw.disk, diffs, verdict, none)
 
 def processBlock (b : Block) (st : Stats) : IO Stats := do
@@ -145,6 +151,10 @@ def processBlock (b : Block) (st : Stats) : IO Stats := do
         if let some (gi, why) := verdict then
           IO.println s!"J C11 {b.id} step={k} side=impl grant={gi} {why}"
           st := { st with jfails := st.jfails + 1 }
+        if w.config.isSome then
+          if let some why := firstFail (episodeNetChecks (← A_OUT.get) iobs.net) then
+            IO.println s!"J C17 {b.id} step={k} side=impl {why}"
+            st := { st with jfails := st.jfails + 1 }
         if nd > 0 then
           diff := true
           st := { st with diffs := st.diffs + nd }
